@@ -22,22 +22,42 @@ Tn(k, n) == Tok(k, n, "", 0, 0)
 Ts(k, s) == Tok(k, 0, s, 0, 0)
 
 Cost(a) == IF a.k \in {"esac", "empty"} THEN 0 ELSE 1
-Need(slot) == IF slot \in {"C", "N"} THEN 1 ELSE 0
+\* An open slot: its type, and whether a loop / a function body lexically
+\* encloses it in the same execution environment.  Programs in which break,
+\* continue or return cannot but be unspecified (no enclosing loop / function)
+\* are not generated at all.
+Slot(ty, lp, fn) == [ty |-> ty, lp |-> lp, fn |-> fn]
+Need(slot) == IF slot.ty \in {"C", "N"} THEN 1 ELSE 0
 RECURSIVE NeedAll(_)
 NeedAll(ss) == IF ss = <<>> THEN 0 ELSE Need(Head(ss)) + NeedAll(Tail(ss))
 
-Alpha(slot) ==
-  CASE slot = "C" -> Alphabet
-    [] slot = "N" -> {a \in Alphabet : a.k # "seq"}
-    [] slot = "B" -> Alphabet \cup {T0("empty")}
-    [] slot = "I" -> ItemAlphabet \cup {T0("esac")}
+Allowed(a, slot) ==
+  /\ (a.k \in {"brk", "cnt"} /\ a.n >= 1 /\ a.r = 0) => slot.lp
+  /\ (a.k = "ret" /\ a.r = 0) => slot.fn
 
-Init == toks = <<>> /\ slots = <<"C">> /\ sz = 0
+Alpha(slot) ==
+  LET base == CASE slot.ty = "C" -> Alphabet
+                [] slot.ty = "N" -> {a \in Alphabet : a.k # "seq"}
+                [] slot.ty = "B" -> Alphabet \cup {T0("empty")}
+                [] slot.ty = "I" -> ItemAlphabet \cup {T0("esac")}
+  IN {a \in base : Allowed(a, slot)}
+
+ChildSlots(a, slot) ==
+  LET tys == SlotsOf(a.k)
+      lp == CASE a.k \in {"for", "while", "until"} -> TRUE
+              [] a.k \in {"def", "sub", "pipe"} -> FALSE
+              [] OTHER -> slot.lp
+      fn == CASE a.k = "def" -> TRUE
+              [] a.k \in {"sub", "pipe"} -> FALSE
+              [] OTHER -> slot.fn
+  IN [i \in 1..Len(tys) |-> Slot(tys[i], lp, fn)]
+
+Init == toks = <<>> /\ slots = <<Slot("C", FALSE, FALSE)>> /\ sz = 0
 
 Next ==
   /\ slots # <<>>
   /\ \E a \in Alpha(Head(slots)) :
-       LET ns == SlotsOf(a.k) \o Tail(slots)
+       LET ns == ChildSlots(a, Head(slots)) \o Tail(slots)
        IN /\ sz + Cost(a) + NeedAll(ns) <= K
           /\ toks' = Append(toks, a)
           /\ slots' = ns
@@ -59,7 +79,7 @@ OptSeq(nl) ==
 
 Result(t, o) ==
   LET R == Run(t, o)
-  IN [e |-> o.e, t |-> o.t, y |-> o.y, oc |-> R.oc, tr |-> R.tr, st |-> R.st, nt |-> R.nt]
+  IN [e |-> o.e, t |-> o.t, y |-> o.y, oc |-> R.oc, tr |-> R.tr, st |-> R.st, nt |-> R.nt, tag |-> R.tag]
 
 Out ==
   LET t == Parse(toks)
@@ -179,6 +199,9 @@ AlphaLoops ==
   {MK0, MK1, PR, TICK, BRK(1), BRK(2), CNT(1), CNT(2), FOR("ab"), T0("while"), T0("until"),
    T0("seq"), T0("and"), T0("or"), T0("if"), T0("not"), CASE_("v")}
 ItemsLoops == {ITEM("a", 0), ITEM("b", 0)}
+
+\* C02: loop status rules (TickLimit = 3)
+AlphaLoops2 == {MK1, PR, TICK, CNT(1), BRK(1), T0("while"), T0("until"), T0("seq"), T0("or")}
 
 \* C02: functions, return, command search
 AlphaFuncs ==
